@@ -1,0 +1,5 @@
+//go:build !verif
+
+package link_solicit
+
+func verifGate(string) {}
